@@ -24,7 +24,7 @@ fn agent(focus: &'static str, name: &'static str) -> Arc<dyn World> {
 }
 
 pub fn world_names() -> Vec<&'static str> {
-    vec!["agent-c01", "agent-c02", "agent-c03", "agent-c04", "agent-c05", "agent-c05f", "agent-c14", "agent-c04f", "agent-c20", "agent-mix", "dlrt-value", "dlrt-map", "dltask-value", "dltask-map", "hosted-value", "hosted-map", "vote", "store-mem", "store-rocks", "codec", "chan", "recon", "handlers", "links", "uplinks", "queues", "socket"]
+    vec!["agent-c01", "agent-c02", "agent-c03", "agent-c04", "agent-c05", "agent-c05f", "agent-c14", "agent-c04f", "agent-c20", "agent-mix", "agent-dyn", "dlrt-value", "dlrt-map", "dltask-value", "dltask-map", "hosted-value", "hosted-map", "vote", "store-mem", "store-rocks", "codec", "chan", "recon", "handlers", "links", "uplinks", "queues", "socket"]
 }
 
 pub fn world_by_name(name: &str) -> Option<Arc<dyn World>> {
@@ -39,6 +39,7 @@ pub fn world_by_name(name: &str) -> Option<Arc<dyn World>> {
         "agent-c14" => agent("C14", "agent-c14"),
         "agent-c20" => agent("C20", "agent-c20"),
         "agent-mix" => agent("MIX", "agent-mix"),
+        "agent-dyn" => agent("DYN", "agent-dyn"),
         "dlrt-value" => Arc::new(DlrtWorld { map: false }),
         "dlrt-map" => Arc::new(DlrtWorld { map: true }),
         "dltask-value" => Arc::new(DlTaskWorld { map: false }),
@@ -116,8 +117,8 @@ const SOCKET_ASSUMPTIONS: &[&str] = &[
 pub fn spec_for(property: &str) -> Option<CheckSpec> {
     let a = || AGENT_ASSUMPTIONS.iter().map(|s| s.to_string()).collect::<Vec<_>>();
     Some(match property {
-        "C01" => CheckSpec { property: "C01", level: "exploration", parts: vec![part("agent-c01", 3000, 300_000), part("agent-mix", 1000, 100_000), part("uplinks", 2000, 200_000)], assumptions: a() },
-        "C02" => CheckSpec { property: "C02", level: "exploration", parts: vec![part("agent-c02", 3000, 300_000), part("agent-mix", 1000, 100_000), part("queues", 3000, 300_000), part("uplinks", 2000, 200_000)], assumptions: a() },
+        "C01" => CheckSpec { property: "C01", level: "exploration", parts: vec![part("agent-c01", 3000, 300_000), part("agent-mix", 1000, 100_000), part("uplinks", 2000, 200_000), part("agent-dyn", 1000, 100_000)], assumptions: a() },
+        "C02" => CheckSpec { property: "C02", level: "exploration", parts: vec![part("agent-c02", 3000, 300_000), part("agent-mix", 1000, 100_000), part("queues", 3000, 300_000), part("uplinks", 2000, 200_000), part("agent-dyn", 2000, 200_000)], assumptions: a() },
         "C03" => CheckSpec { property: "C03", level: "exploration", parts: vec![part("agent-c03", 3000, 300_000), part("agent-mix", 1000, 100_000), part("queues", 3000, 300_000), part("uplinks", 2000, 200_000)], assumptions: a() },
         "C04" => CheckSpec { property: "C04", level: "exploration", parts: vec![part("agent-c04", 3000, 300_000), part("agent-c04f", 2000, 200_000), part("agent-mix", 1000, 100_000), part("uplinks", 3000, 300_000)], assumptions: a() },
         "C05" => CheckSpec { property: "C05", level: "fault_enumeration", parts: vec![part("agent-c05", 3000, 300_000), part("agent-c05f", 1500, 150_000), part("agent-mix", 1000, 100_000)], assumptions: a() },
